@@ -6,7 +6,7 @@ from ..refs.caseless import Model, K
 
 ID = "C17"
 RULE = ("histories of mapping operations (construction from mapping/pairs/kwargs incl. colliding case variants, [] get/set/del, in, get, pop(+-default), "
-        "popitem, setdefault, update(mapping/pairs/kwargs), copy, fromkeys, |, |=, reflected |, ==/!=, keys/values/items, has_key, sorted_keys) on "
+        "popitem, setdefault, update(mapping - dict, MappingProxyType, UserDict, ChainMap, OrderedDict - /pairs/kwargs), copy, fromkeys, |, |=, reflected |, ==/!=, keys/values/items, has_key, sorted_keys) on "
         "CaselessDict, Parameters, Component, Event, Calendar, vRecur; exhaustive over a reduced operation alphabet up to length 3 (thorough 4), seeded "
         "random histories up to length 40 over a key set with case variants, bytes keys (ASCII and UTF-8 with cased non-ASCII letters) and sharp-s/dotless-i; after every operation the result, the "
         "exception kind, the stored keys (upper-case str), the item order and equality with equal-content mappings are compared with the model; "
@@ -145,7 +145,10 @@ def do(d, op, cls):
             src = {}
             for k, v in op[1]:
                 src[k] = v
-            d.update(src)
+            # any mapping will do as the source, not only a dict
+            import collections, types
+            wrap = (lambda x: x, types.MappingProxyType, collections.UserDict, collections.ChainMap, OrderedDict)[(len(src) + sum(v for v in src.values() if isinstance(v, int))) % 5]
+            d.update(wrap(src))
             return ("ok", None), d
         if name == "update_pairs":
             d.update(list(op[1]))
